@@ -21,6 +21,7 @@ type redistTamper[E algebra.PrimeGroupElement[E, S], S algebra.PrimeFieldElement
 	R2B func(sender sharing.ID, m *redistribute.Round2Broadcast[E, S]) *redistribute.Round2Broadcast[E, S]
 	R2U func(sender, rcpt sharing.ID, m *redistribute.Round2P2P[E, S]) *redistribute.Round2P2P[E, S]
 	R1U func(sender, rcpt sharing.ID, m *redistribute.Round1P2P[E, S]) *redistribute.Round1P2P[E, S]
+	R1B func(sender sharing.ID, m *redistribute.Round1Broadcast[E, S]) *redistribute.Round1Broadcast[E, S]
 }
 
 type redistResult[E algebra.PrimeGroupElement[E, S], S algebra.PrimeFieldElement[S]] struct {
@@ -83,7 +84,12 @@ func runRedistribute[E algebra.PrimeGroupElement[E, S], S algebra.PrimeFieldElem
 			return res, nil
 		}
 		if u != nil && tamper != nil && tamper.R1U != nil {
-			u = mapUnicasts(u, func(rcpt sharing.ID, m *redistribute.Round1P2P[E, S]) *redistribute.Round1P2P[E, S] { return tamper.R1U(id, rcpt, m) })
+			u = mapUnicasts(u, func(rcpt sharing.ID, m *redistribute.Round1P2P[E, S]) *redistribute.Round1P2P[E, S] {
+				return tamper.R1U(id, rcpt, m)
+			})
+		}
+		if tamper != nil && tamper.R1B != nil && isPrev[id] {
+			b = tamper.R1B(id, b)
 		}
 		r1b[id] = b
 		if u != nil {
@@ -94,7 +100,15 @@ func runRedistribute[E algebra.PrimeGroupElement[E, S], S algebra.PrimeFieldElem
 	r2u := map[sharing.ID]ds.Map[sharing.ID, *redistribute.Round2P2P[E, S]]{}
 	for _, id := range all {
 		env.SetActor(fmt.Sprint(id))
-		b, u, err := parts[id].Round2(othersOf(id, r1b), unicastsTo(id, r1u))
+		type r2out struct {
+			b *redistribute.Round2Broadcast[E, S]
+			u ds.Map[sharing.ID, *redistribute.Round2P2P[E, S]]
+		}
+		o, err := guarded(func() (r2out, error) {
+			b, u, err := parts[id].Round2(othersOf(id, r1b), unicastsTo(id, r1u))
+			return r2out{b, u}, err
+		})
+		b, u := o.b, o.u
 		if err != nil {
 			res.Errs[id], res.Round[id] = err, 2
 			continue
@@ -103,7 +117,9 @@ func runRedistribute[E algebra.PrimeGroupElement[E, S], S algebra.PrimeFieldElem
 			b = tamper.R2B(id, b)
 		}
 		if u != nil && tamper != nil && tamper.R2U != nil {
-			u = mapUnicasts(u, func(rcpt sharing.ID, m *redistribute.Round2P2P[E, S]) *redistribute.Round2P2P[E, S] { return tamper.R2U(id, rcpt, m) })
+			u = mapUnicasts(u, func(rcpt sharing.ID, m *redistribute.Round2P2P[E, S]) *redistribute.Round2P2P[E, S] {
+				return tamper.R2U(id, rcpt, m)
+			})
 		}
 		r2b[id] = b
 		if u != nil {
@@ -115,7 +131,9 @@ func runRedistribute[E algebra.PrimeGroupElement[E, S], S algebra.PrimeFieldElem
 	}
 	for _, id := range all {
 		env.SetActor(fmt.Sprint(id))
-		sh, err := parts[id].Round3(othersOf(id, r2b), unicastsTo(id, r2u))
+		sh, err := guarded(func() (*mpc.BaseShard[E, S], error) {
+			return parts[id].Round3(othersOf(id, r2b), unicastsTo(id, r2u))
+		})
 		if err != nil {
 			res.Errs[id], res.Round[id] = err, 3
 			continue
@@ -330,6 +348,22 @@ func C06Cases(tier string, seed int64) []Case {
 	}
 	add(0, []epochOp{{Kind: "redistribute", To: 5, Anchor: true}, {Kind: "rekey", Lost: 1}})
 	add(0, []epochOp{{Kind: "redistribute", To: 5}, {Kind: "rekey", Lost: 2, Anchor: true}})
+	// the key does not change for anybody who accepts, even when one previous holder enters the
+	// step with a forged (self-consistent) shard of another key; deviator at every position
+	t23 := thresholdPolicy(2, []sharing.ID{1, 2, 3})
+	for _, cfg := range []redistConfig{
+		{t23, t23, []sharing.ID{2, 3}, false}, {t23, t23, []sharing.ID{1, 3}, false}, {t23, t23, []sharing.ID{1, 2, 3}, false},
+		{t23, thresholdPolicy(2, []sharing.ID{4, 9}), []sharing.ID{1, 2}, false},
+		{c06Structures()[5], c06Structures()[5], []sharing.ID{1, 4}, false},
+	} {
+		c := cfg
+		for _, dev := range c.Prev {
+			fl := redistFault{Kind: "forged-shard", Deviator: dev, Prefix: "C06.deviating-holder"}
+			cases = append(cases, Case{ID: fmt.Sprintf("C06/forged-shard/%s→%s/prev=%s/dev=%d", c.From.Name, c.To.Name, setName(c.Prev), dev),
+				Desc: map[string]any{"from": c.From.Name, "to": c.To.Name, "previous_holders": c.Prev, "deviator": dev, "fault": "deviator holds a self-consistent shard of a different key that agrees with the honest holders' shares", "anchor": "none"},
+				Sym:  func(e *SymEnv) { c04Redistribute(e, c.From, c.To, c.Prev, 0, fl) }})
+		}
+	}
 	// histories of length 2 (quick: from structure 0) and 3 (thorough)
 	second := []epochOp{{Kind: "refresh"}, {Kind: "recover", Lost: 1}, {Kind: "redistribute", To: 0, Anchor: true}, {Kind: "redistribute", To: 2}}
 	for _, a := range single {
